@@ -1,6 +1,6 @@
 (* Eval03.v — evaluation of C03 observations: generated deriveCompare vs model and order spec. *)
 From Coq Require Import String.
-From Verif Require Import Base Sexp Go.Ty Go.Val Go.Equal Go.Compare Go.CompareSpec.
+From Verif Require Import Base Sexp Go.Ty Go.Val Go.Equal Go.Compare Go.CompareSpec Go.Methods.
 Open Scope string_scope.
 
 Definition zres_sexp (r : res Z) : sexp :=
@@ -32,20 +32,22 @@ Definition eval03 (e : sexp) : verdict :=
       match parse_ty tys, parse_val xs, parse_val ys with
       | Some t, Some x, Some y =>
           let typed := (has_type [] t x && has_type [] t y)%bool in
-          let m := compare_model t x y in
+          let m := cmpm_m true [] t x y in
+          let mf := method_free t in
           if (String.eqb k "cmp" || String.eqb k "cmpc")%bool then
             (* specification: the encoding order, and 0 exactly when structurally equal *)
-            let s := match spec_cmp [] t x y with Some c => Ok c | None => Stuck end in
-            let zero_ok := match m, spec_eq [] t x y with
-                           | Ok c, Some b => Bool.eqb (Z.eqb c 0) b
+            let s := if mf then match spec_cmp [] t x y with Some c => Ok c | None => Stuck end else m in
+            let zero_ok := match m, eqm_m [] Top t x y with
+                           | Ok c, Ok b => Bool.eqb (Z.eqb c 0) b
                            | _, _ => false end in
             {| v_known := typed;
                v_model_ok := sexp_eqb (zres_sexp m) real;
                v_spec_ok := (sexp_eqb (zres_sexp s) real
                              && match s with Ok c => in_range c | _ => false end
                              && (zero_ok || negb (sexp_eqb (zres_sexp m) real)))%bool;
-               v_guard := typed; v_model := zres_sexp m;
-               v_tag := k ++ "/" ++ node_tag t ++ "/" ++ sgn_tag m |}
+               v_guard := (typed && negb (vm_exposed t))%bool; v_model := zres_sexp m;
+               v_tag := (if vm_exposed t then "known:compare-ignores-value-method/" else "")
+                        ++ (if mf then "" else "methods/") ++ k ++ "/" ++ node_tag t ++ "/" ++ sgn_tag m |}
           else if String.eqb k "cmpeq" then
             match real with
             | L [Sym _; c; b] =>
@@ -53,10 +55,10 @@ Definition eval03 (e : sexp) : verdict :=
                 | Some c', Some b' =>
                     {| v_known := typed;
                        v_model_ok := (sexp_eqb (zres_sexp m) (L [Sym "ret"; c])
-                                      && match Equal.eqm [] Top t x y with Ok b'' => Bool.eqb b'' b' | _ => false end)%bool;
+                                      && match eqm_m [] Top t x y with Ok b'' => Bool.eqb b'' b' | _ => false end)%bool;
                        v_spec_ok := Bool.eqb (Z.eqb c' 0) b';
-                       v_guard := typed; v_model := zres_sexp m;
-                       v_tag := "cmpeq/" ++ node_tag t ++ "/" ++ (if b' then "equal" else "different") |}
+                       v_guard := (typed && negb (vm_exposed t))%bool; v_model := zres_sexp m;
+                       v_tag := (if vm_exposed t then "known:compare-ignores-value-method/" else "") ++ "cmpeq/" ++ node_tag t ++ "/" ++ (if b' then "equal" else "different") |}
                 | _, _ => bad_line
                 end
             | _ => bad_line
@@ -69,16 +71,16 @@ Definition eval03 (e : sexp) : verdict :=
         match parse_ty tys, parse_val xs, parse_val ys, parse_val zs, get_i a, get_i b, get_i c, get_i d with
         | Some t, Some x, Some y, Some z, Some a', Some b', Some c', Some d' =>
             let typed := (has_type [] t x && has_type [] t y && has_type [] t z)%bool in
-            let mo := (sexp_eqb (zres_sexp (compare_model t x y)) (L [Sym "ret"; a])
-                       && sexp_eqb (zres_sexp (compare_model t y x)) (L [Sym "ret"; b])
-                       && sexp_eqb (zres_sexp (compare_model t y z)) (L [Sym "ret"; c])
-                       && sexp_eqb (zres_sexp (compare_model t x z)) (L [Sym "ret"; d]))%bool in
+            let mo := (sexp_eqb (zres_sexp (cmpm_m true [] t x y)) (L [Sym "ret"; a])
+                       && sexp_eqb (zres_sexp (cmpm_m true [] t y x)) (L [Sym "ret"; b])
+                       && sexp_eqb (zres_sexp (cmpm_m true [] t y z)) (L [Sym "ret"; c])
+                       && sexp_eqb (zres_sexp (cmpm_m true [] t x z)) (L [Sym "ret"; d]))%bool in
             let antisym := Z.eqb a' (- b') in
             let trans := (negb (Z.leb a' 0 && Z.leb c' 0) || Z.leb d' 0)%bool in
             let trans0 := (negb (Z.eqb a' 0 && Z.eqb c' 0) || Z.eqb d' 0)%bool in
             {| v_known := typed; v_model_ok := mo;
                v_spec_ok := (antisym && trans && trans0 && in_range a' && in_range b' && in_range c' && in_range d')%bool;
-               v_guard := typed; v_model := zres_sexp (compare_model t x y);
+               v_guard := typed; v_model := zres_sexp (cmpm_m true [] t x y);
                v_tag := "cmp3/" ++ node_tag t ++ "/" ++ (if (Z.leb a' 0 && Z.leb c' 0)%bool then "chain" else "nochain") |}
         | _, _, _, _, _, _, _, _ => bad_line
         end
